@@ -1,6 +1,8 @@
 """C06 uniform fields stay uniform"""
 from .common import jobs_for
 LEVEL = 'proof'
+LEVEL_TEXT = 'diffusion of a constant is zero, central/upwind of a constant equals c*div(u) and the TVD correction of a constant is zero (arbitrary uninterpreted limiter), per axis for a symbolic interior cell on all 9 grids'
+LEVEL_NOTE = 'steady-state corollary through solvePDE relies on the solver contract (A4); explicit-u_upwind-with-exact-zeros is a recorded finding'
 MODULES = ['contracts.ops', 'contracts.canaries']
 TRUSTED = ['A1', 'A2', 'A5', 'A6', 'UF']
 
